@@ -17,11 +17,11 @@ from props.c10 import validate_traces
 LEVEL = "model_checking"
 
 
-def scripts(ctx, sd, ncalls, npipes, maxlen, cancel, tag):
+def scripts(ctx, sd, ncalls, npipes, maxlen, cancel, tag, shutdown=True):
     cfg = "Env_%s.cfg" % tag
     with open(os.path.join(sd, cfg), "w") as f:
-        f.write("SPECIFICATION Spec\nCONSTANTS\n  NCalls = %d\n  NPipes = %d\n  MaxLen = %d\n  WithShutdown = TRUE\n  WithCancel = %s\nINVARIANT Emit\nCHECK_DEADLOCK FALSE\n"
-                % (ncalls, npipes, maxlen, "TRUE" if cancel else "FALSE"))
+        f.write("SPECIFICATION Spec\nCONSTANTS\n  NCalls = %d\n  NPipes = %d\n  MaxLen = %d\n  WithShutdown = %s\n  WithCancel = %s\nINVARIANT Emit\nCHECK_DEADLOCK FALSE\n"
+                % (ncalls, npipes, maxlen, "TRUE" if shutdown else "FALSE", "TRUE" if cancel else "FALSE"))
     r = tlc.run(ctx, sd, "ServerEnv", cfg=cfg, workers=8, timeout=1800, heap="8g")
     return r.tagged("SCRIPT"), r
 
@@ -42,12 +42,31 @@ def run(ctx):
     rng.shuffle(s2)
     n = 500 if ctx.quick else 6000
     chosen = all_scripts[:n] + s2[:n]
+    # waiting callers: a call that waits for a slot (or at the gate behind such a call) is cancelled while later calls wait behind it
+    s3, r3 = scripts(ctx, sd, 3 if ctx.quick else 4, 0, 6 if ctx.quick else 7, True, "c", shutdown=False)
+    states += r3.distinct
+
+    def waiting_cancel(sc):
+        seen, touched = set(), set()
+        for a in sc:
+            if a["a"] == "invoke":
+                seen.add(a["i"])
+            elif a["a"] in ("ack", "return"):
+                touched.add(a["i"])
+            elif a["a"] == "cancel":
+                if a["i"] >= 2 and a["i"] not in touched and (a["i"] + 1) in seen and (a["i"] - 1) in touched:
+                    return True
+        return False
+    s3 = [x for x in s3 if waiting_cancel(x)]
+    rng.shuffle(s3)
+    s3 = s3[:(250 if ctx.quick else 4000)]
+    ctx.log("ServerEnv: %d + %d sampled scripts, %d scripts that cancel a waiting caller" % (min(n, len(all_scripts)), min(n, len(s2)), len(s3)))
     drv = gobuild.build(ctx, "srvdrv")
     total = rejected = hangs = events = 0
     kinds = {}
     for maxc in (1, 2):
         sf = ctx.path("scripts-%d.ndjson" % maxc)
-        part = chosen[(maxc - 1)::2]
+        part = chosen[(maxc - 1)::2] + (s3 if maxc == 1 else [])
         with open(sf, "w") as f:
             for s in part:
                 f.write(json.dumps(s) + "\n")
@@ -55,9 +74,9 @@ def run(ctx):
         rc, out, err = gobuild.run_driver(ctx, drv, ["run", sf, tf, str(maxc), "2"], timeout=3400)
         if rc != 0:
             head = [ln for ln in err.splitlines() if ln.startswith("panic:") or ln.startswith("fatal error:")]
-        first = "\n".join(err.split("\n\n")[0:2])
-        if "verifh" in first.split("capnproto.org/go/capnp/v3.")[0] and "capnproto.org/go/capnp/v3." not in first.replace("capnproto.org/go/capnp/v3/internal/verifh", ""):
-            raise Inconclusive("the driver crashed in harness code: %s" % err[:2000])
+            first = "\n".join(err.split("\n\n")[0:2])
+            if "verifh" in first.split("capnproto.org/go/capnp/v3.")[0] and "capnproto.org/go/capnp/v3." not in first.replace("capnproto.org/go/capnp/v3/internal/verifh", ""):
+                raise Inconclusive("the driver crashed in harness code: %s" % err[:2000])
             ctx.violation("driver-death:" + (head[0][:80] if head else "rc%d" % rc), "the driver died: %s" % err[:3000], {"stderr": err[:6000]})
             return
         summ = None
